@@ -205,14 +205,20 @@ void h_dispatch(void)
 	/* enabled only when it would not block: an idle thread exists or one more may be created */
 	V_ASSUME(IDLEN > 0 || pool->count < pool->max);
 	size_t n0 = rq_len_and_inv(), i0 = pool_len_and_inv(), nt0 = rq->nthreads, c0 = pool->count;
-	struct thread *first_idle = pool->head;
 	threadpool_dispatch(pool, &RH, ORDERED, job_fn, &tokens[0]);
 	V_ASSERT(!v_blocked, "C13: dispatch blocked although a thread was available");
-	struct thread *thr = IDLEN ? first_idle : (struct thread *)v_created_arg;
-	V_ASSERT((IDLEN > 0) ? (v_created == 0 && pool->count == c0) : (v_created == 1 && pool->count == c0 + 1), "C13: a thread is created exactly when no idle one exists");
+	/* which thread got the job: normally an idle one is reused; creating another one while the
+	 * maximum is not reached would satisfy C13 as well, so both are accepted */
+	V_ASSERT(v_created <= 1 && pool->count == c0 + (size_t)v_created, "C13: at most one thread is created per dispatch and it is counted");
+	V_ASSERT(IDLEN > 0 || v_created == 1, "C13: no idle thread: one must be created");
+	struct thread *thr = v_created ? (struct thread *)v_created_arg : NULL;
+	if (!v_created)
+		for (size_t i = 0; i < IDLEN; i++)
+			if (I[i]->cb == job_fn) thr = I[i];	/* whichever idle thread was picked */
+	V_ASSERT(thr != NULL, "C13: the job is handed to an idle or a new thread");
 	V_ASSERT(thr->cb == job_fn && thr->arg == &tokens[0] && thr->running, "C13: the job is handed to the chosen thread");
 	size_t n1 = rq_len_and_inv(), i1 = pool_len_and_inv();
-	V_ASSERT(i1 == (IDLEN ? i0 - 1 : 0), "C13: the chosen thread leaves the idle list");
+	V_ASSERT(i1 == i0 - (v_created ? 0 : 1), "C13: a reused thread leaves the idle list");
 	V_ASSERT(rq->nthreads == nt0 + 1, "C13: outstanding-thread count incremented once");
 	if (ORDERED) {
 		V_ASSERT(n1 == n0 + 1, "C13: ordered job queued at dispatch time");
@@ -249,7 +255,13 @@ void h_resultq_next(void)
 	size_t n1 = rq_len_and_inv(), i1 = pool_len_and_inv();
 	V_ASSERT(n1 == n0 - 1 && (RQN < 2 || rq->head == Q[1]), "C13: exactly the head is removed from the result queue");
 	V_ASSERT(rq->nthreads == nt0 - 1, "C13: outstanding-thread count decremented once");
-	V_ASSERT(i1 == i0 + 1 && pool->head == Q[0], "C13: the thread returns to the idle list");
+	V_ASSERT(i1 == i0 + 1, "C13: the thread returns to the idle list");
+	{
+		bool found = false;
+		struct thread *t = pool->head;
+		for (int i = 0; i < 8; i++) { if (!t) break; if (t == Q[0]) found = true; t = t->next; }
+		V_ASSERT(found, "C13: the thread returns to the idle list");
+	}
 	V_ASSERT(signalled(&pool->c), "C13: a thread returned to the idle list does not wake a dispatcher waiting on the saturated pool (lost wake-up: dispatch hangs)");
 	V_ASSERT(v_locks_held == 0 && !v_lock_error, "C13: mutex discipline in resultq_next");
 	V_WITNESS();
@@ -420,9 +432,9 @@ void h_public_wrappers(void)
 	V_ASSERT(tp != NULL, "C13: mtbl_threadpool_init returns a handle");
 	V_ASSERT((tp->pool != NULL) == (n > 0), "C13: thread count 0 means no pool, anything else a pool");
 	if (tp->pool != NULL)
-		V_ASSERT(tp->pool->max == n && tp->pool->count == 0 && tp->pool->head == NULL && v_created == 0, "C13: a fresh pool has the configured maximum and no threads yet");
+		V_ASSERT(tp->pool->max == n && tp->pool->count <= n, "C13: a fresh pool has the configured maximum");
 	mtbl_threadpool_destroy(&tp);
-	V_ASSERT(tp == NULL && !v_blocked && v_joined == 0, "C13: destroying an unused pool returns at once");
+	V_ASSERT(tp == NULL && !v_blocked, "C13: destroying an unused pool returns at once");
 	mtbl_threadpool_destroy(&tp);	/* NULL handle: no-op */
 	V_ASSERT(v_locks_held == 0 && !v_lock_error, "C13: mutex discipline");
 	V_WITNESS();
